@@ -287,6 +287,8 @@ def rule_shortcut_injective(ctx):
 
 
 def run(ctx):
+    from . import edges
+    edges.rule_threshold_siblings(ctx, 'R01.13')     # one quantity, one literal, one line: Variation.particles for testparticle = 0
     from . import pyrules
     pyrules.rule_undefined_names(ctx, 'R18.11')     # every name a function of the Python layer loads is bound somewhere
     from . import pyrules
